@@ -61,3 +61,8 @@ HARNESSES.update({
         bound='information request with one symbolic request (padding residue 4) + entry tag, both architectures',
         functions=['Builder::build', 'InformationRequestHeaderTag::new', 'Multiboot2Header::load', 'iter'], props=['C12']),
 })
+
+HARNESSES.update({
+    'k_smbios_clone_dyn': dict(MB2, file='smbios.rs', kind='bounded', bound='SMBIOS tables of 0..=9 symbolic bytes (every padding residue)',
+        functions=['clone_dyn', 'new_boxed', 'SmbiosTag::new'], props=['C16']),
+})
